@@ -809,3 +809,120 @@ def do_truncation_search(req):
 
 HANDLERS.update({'v3_case': do_v3_case, 'v3_blocks_search': do_v3_blocks_search, 'truncation_case': do_truncation_case,
                  'truncation_search': do_truncation_search})
+
+
+# ------------------------------------------------------------------------------ C16 bounded stand-in / replay
+def _mk_raw(keys, rnd=None, ti=None):
+    import random
+    rnd = rnd or random.Random(1)
+    raw = {'cm': 0, 't': 'Log', 's': 'x', 'tid': rnd.randint(1, 99), 'ns': 5, 'mct': 6, 'b': b'b' * 16, 'piu': b'p' * 16,
+           'ud': {'sec': rnd.choice([0, 1, 1600000000, 2 ** 31 - 1]), 'usec': rnd.choice([0, 1, 499999, 500000, 999999])},
+           'utz': {'mw': 120, 'dt': 1}}
+    for k in keys:
+        if k in ('pip', 'p', 'sip', 'send', 'sub', 'cat', 'f', 'sn'):
+            raw[k] = rnd.randint(0, 3)
+        elif k == 'lt':
+            raw[k] = rnd.choice([0, 1, 2, 0x10, 0x11])
+        elif k == 'ti':
+            raw[k] = ti if ti is not None else ((rnd.getrandbits(32) << 32) | (rnd.getrandbits(8) << 24) | (rnd.getrandbits(6) << 16)
+                                                 | (rnd.choice([0, 1, 2, 0x10, 0x11]) << 8) | rnd.choice([3, 4]))
+        elif k in ('lsutz', 'leutz'):
+            raw[k] = {'mw': 1, 'dt': 0}
+        elif k in ('lsud', 'leud'):
+            raw[k] = {'sec': 1, 'usec': 2}
+        elif k == 'bt':
+            raw[k] = [{'iu': b'u' * 16, 'io': i} for i in range(rnd.randint(0, 3))]
+        elif k == 'lc':
+            raw[k] = {'c': 3, 's': 1}
+        elif k == 'dm':
+            segs = []
+            for _ in range(rnd.randint(0, 2)):
+                seg = {}
+                if rnd.random() < 0.6:
+                    seg['lp'] = rnd.randint(0, 3)
+                if rnd.random() < 0.6:
+                    p = {'w': 1, 'p': 2}
+                    if rnd.random() < 0.5:
+                        p['rs'] = 1
+                    if rnd.random() < 0.5:
+                        p['t'] = [0, 2] if rnd.random() < 0.7 else []
+                    if rnd.random() < 0.5:
+                        p['tn'] = 2
+                    if rnd.random() < 0.5:
+                        p['ty'] = 3
+                    seg['p'] = p
+                if rnd.random() < 0.6:
+                    a = {'c': rnd.choice([1, 2, 3])}
+                    if rnd.random() < 0.5:
+                        a['a'] = rnd.choice([1, 3])
+                    if rnd.random() < 0.5:
+                        a['p'] = 1
+                    if rnd.random() < 0.5:
+                        a['sc'] = 1
+                        a['st'] = 2
+                    if rnd.random() < 0.5:
+                        a['or'] = rnd.randint(0, 3)
+                    seg['a'] = a
+                segs.append(seg)
+            raw[k] = {'pc': len(segs), 's': 1, 'seg': segs}
+        else:
+            raw[k] = rnd.randint(0, 2 ** 40)
+    return raw
+
+
+def do_log_case(req, raw=None):
+    import copy
+    from pykdebugparser.os_log_event import OsLogEvent
+    from spec import logrecord as S
+    strings = {0: 'msg', 1: 'proc', 2: 'img', 3: 'sub'}
+    raw = raw if raw is not None else _mk_raw(req['keys'], ti=req.get('ti'))
+    rawc = copy.deepcopy(raw)
+    try:
+        ev = OsLogEvent.from_raw_log_event(rawc, strings)
+    except BaseException as ex:  # noqa
+        return {'violates': True, 'what': 'decoding a raw log record with keys %s raised %s: %s' % (sorted(raw), type(ex).__name__, ex)}
+    exp = S.expected(raw, strings)
+    for f, v in exp.items():
+        got = getattr(ev, f, '<missing>')
+        if f == 'log_type':
+            got = getattr(got, 'value', got)
+        if got != v:
+            return {'violates': True, 'what': 'field %s is %r, the record says %r' % (f, got, v)}
+    if 'ti' in raw:
+        t = S.unpack_trace_identifier(raw['ti'])
+        ti = ev.trace_identifier
+        g = {'namespace': ti.namespace.value, 'type': getattr(ti.type_, 'value', ti.type_), 'has_current_aid': bool(ti.has_current_aid),
+             'pc_style': ti.pc_style.value, 'has_unique_pid': bool(ti.has_unique_pid), 'has_large_offset': bool(ti.has_large_offset),
+             'code': ti.code}
+        for k_, v in g.items():
+            if t[k_] != v:
+                return {'violates': True, 'what': 'trace identifier %#x: %s decoded as %r, packed value is %r' % (raw['ti'], k_, v, t[k_])}
+        if ti.flags is not None and int(ti.flags) != t['flags']:
+            return {'violates': True, 'what': 'trace identifier flags decoded as %r, packed value is %r' % (ti.flags, t['flags'])}
+    if 'dm' in raw:
+        dm = ev.decomposed_message
+        if dm.get('placeholder_count') != raw['dm']['pc'] or len(dm.get('segments', [])) != len(raw['dm']['seg']):
+            return {'violates': True, 'what': 'decomposed message segments %r do not match the record\'s %r' % (dm, raw['dm'])}
+    return {'violates': False}
+
+
+def do_log_search(req):
+    import random
+    rnd = random.Random(req.get('seed', 0))
+    budget = req.get('budget', 300)
+    allk = ['ti', 'pip', 'p', 'sip', 'send', 'sio', 'siu', 'lt', 'ttl', 'pid', 'aid', 'paid', 'tai', 'sub', 'cat', 'f', 'cai', 'cpui', 'si', 'sn',
+            'st', 'ss', 'lsmct', 'lemct', 'lsud', 'leud', 'lsutz', 'leutz', 'bt', 'lc', 'dm']
+    tried = 0
+    singles = [[k] for k in allk] + [[], allk]
+    while tried < budget:
+        keys = singles[tried] if tried < len(singles) else [k for k in allk if rnd.random() < 0.4]
+        tried += 1
+        raw = _mk_raw(keys, rnd)
+        r = do_log_case({'keys': keys}, raw=raw)
+        if r['violates']:
+            r['request'] = {'kind': 'log_case', 'keys': keys, 'ti': raw.get('ti')}
+            return {'tried': tried, 'bound': 'every single optional key, none, all, then random subsets; timestamps at boundary values', 'found': r}
+    return {'tried': tried, 'bound': 'every single optional key, none, all, then random subsets; timestamps at boundary values', 'found': None}
+
+
+HANDLERS.update({'log_case': do_log_case, 'log_search': do_log_search})
